@@ -95,6 +95,79 @@ def run(chk) -> None:
     _r10d(chk, repo)
     chk.rule("R10e", "the raw-slice lookups both template-safety filters rely on scan the whole slice list: in a `while <E> < len(S) and .. S[I] ..` scan the bounded expression E is one of the subscripted indices I")
     _r10e(chk, repo)
+    chk.rule("R10f", "has_template_conflicts treats EVERY templated raw slice as a conflict: its any()/all() tests are `<slice>.slice_type == \"templated\"` with no narrowing conjunct")
+    chk.rule("R10g", "the break-safety guard of template-safe reflow (LT05 skips the discard step) decides on nothing but whether the two neighbours are literal: a break between two non-literal neighbours is never safe")
+    _r10f(chk, repo)
+    _r10g(chk, repo)
+
+
+def _r10f(chk, repo) -> None:
+    f = repo.fn("src/sqlfluff/core/rules/fix.py", "LintFix.has_template_conflicts")
+    n = 0
+    for g in [x for x in walk_local(f) if isinstance(x, (ast.GeneratorExp, ast.ListComp))]:
+        cmps = [c for c in ast.walk(g.elt) if isinstance(c, ast.Compare) and isinstance(c.left, ast.Attribute) and c.left.attr == "slice_type"]
+        if not cmps:
+            continue
+        n += 1
+        elt = g.elt
+        ok = (
+            isinstance(elt, ast.Compare) and len(elt.ops) == 1 and isinstance(elt.left, ast.Attribute) and elt.left.attr == "slice_type"
+            and (
+                (isinstance(elt.ops[0], ast.Eq) and isinstance(elt.comparators[0], ast.Constant) and elt.comparators[0].value == "templated")
+                or (isinstance(elt.ops[0], ast.In) and isinstance(elt.comparators[0], (ast.Tuple, ast.List, ast.Set)) and any(isinstance(x, ast.Constant) and x.value == "templated" for x in elt.comparators[0].elts))
+            )
+        ) or (
+            # widening is fine: `a or slice_type == "templated"`
+            isinstance(elt, ast.BoolOp) and isinstance(elt.op, ast.Or) and any(c is v for c in cmps for v in elt.values)
+        )
+        chk.require(
+            ok and not g.generators[0].ifs, "R10f", g,
+            f"has_template_conflicts tests `{short(g.elt, 70)}`" + (" over a filtered list" if g.generators[0].ifs else "")
+            + ": some templated slices no longer count as a conflict, so a fix anchored inside rendered template output survives the discard step and the "
+            "template code is rewritten (or written twice)",
+            detail="every templated slice is a conflict",
+        )
+    chk.count("R10f.templated_tests", n)
+    chk.floor("R10f.templated_tests", 2)
+
+
+def _r10g(chk, repo) -> None:
+    f = repo.fn("src/sqlfluff/utils/reflow/reindent.py", "_is_templated_safe_break")
+    cfg = cfg_of(f)
+    rets = [r for r in walk_local(f) if isinstance(r, ast.Return) and r.value is not None]
+    chk.count("R10g.guard_returns", len(rets))
+    if not rets:
+        raise AnalysisError("_is_templated_safe_break has no return (anchor changed?)")
+    ALLOWED_ATTRS = {"is_literal", "pos_marker", "segments"}
+    for r in rets:
+        # everything the result derives from, through locals and the conditions under which they were set
+        todo, seen = [(r.value, r)], []
+        leaves_bad = []
+        while todo:
+            e, at = todo.pop()
+            if any(e is x for x in seen):
+                continue
+            seen.append(e)
+            for sub in ast.walk(e):
+                if isinstance(sub, ast.Name):
+                    for o in origins(cfg, sub, at):
+                        if o.kind == "expr" and o.expr is not None:
+                            todo.append((o.expr, o.stmt))
+                            if o.stmt is not None:
+                                for ce, _pol in cfg.conditions(o.stmt):
+                                    todo.append((ce, o.stmt))
+                if isinstance(sub, ast.Attribute) and sub.attr not in ALLOWED_ATTRS:
+                    leaves_bad.append(sub.attr)
+        for ce, _pol in cfg.conditions(r):
+            for sub in ast.walk(ce):
+                if isinstance(sub, ast.Attribute) and sub.attr not in ALLOWED_ATTRS:
+                    leaves_bad.append(sub.attr)
+        chk.require(
+            not leaves_bad, "R10g", r,
+            f"the break-safety verdict also depends on {sorted(set(leaves_bad))}: two non-literal neighbours can then be declared a safe break point although the break "
+            "falls inside rendered template output (the `{{ ... }}` expression is written twice)",
+            detail="break safety decided by literalness of the neighbours only",
+        )
 
 
 def _r10e(chk, repo) -> None:
@@ -854,6 +927,24 @@ _KEEP_IF_FLAG = (
 )
 
 VARIANTS = [
+    Variant(
+        "template-conflict-test-exempts-literal-tagged-slices", "src/sqlfluff/core/rules/fix.py",
+        "        result = check_fn(fs.slice_type == \"templated\" for fs in fix_slices)\n",
+        "        result = check_fn(fs.slice_type == \"templated\" and fs.tag != \"literal\" for fs in fix_slices)\n",
+        "R10f", "has_template_conflicts", "seeded C10-3: placeholder parameters rendered to several tokens are written twice",
+    ),
+    Variant(
+        "break-guard-compares-source-slices", "src/sqlfluff/utils/reflow/reindent.py",
+        "    return before_literal or after_literal\n",
+        "    if before_literal or after_literal:\n        return True\n    return elements[e_idx - 1].segments[-1].pos_marker.source_slice != elements[e_idx + 1].segments[0].pos_marker.source_slice\n",
+        "R10g", "_is_templated_safe_break", "seeded C10-4 (same effect): a break inside an expansion glued to a literal prefix",
+    ),
+    Variant(
+        "quiet-break-guard-early-returns", "src/sqlfluff/utils/reflow/reindent.py",
+        "    return before_literal or after_literal\n",
+        "    if before_literal:\n        return True\n    return after_literal\n",
+        "QUIET", None, "disjunction spelled as an early return",
+    ),
     # behaviour-preserving refactors: must stay quiet
     Variant(
         "quiet-keep-arms-set-a-flag", PATCH, _KEEP_IF_OLD, _KEEP_IF_FLAG,
